@@ -186,27 +186,22 @@ theorem C18_names_key (sps : List (List Char)) (i j : Nat) (si sj : List Char)
     (hi : sps[i]? = some si) (hj : sps[j]? = some sj) :
     keyOf sps i = keyOf sps j ↔ resolve si = resolve sj := keyOf_eq_iff sps i j si sj hi hj
 
-/-- which spellings the client's `Find` resolves differently from the store: exactly the `.yml` ones of the pool -/
-theorem C18_names_literal (n : List Char) :
-    findsOwnFile (n ++ ymlExt) = false ∧ findsOwnFile (n ++ yamlExt) = true ∧ ((∀ c ∈ n, c ≠ '.') → findsOwnFile n = true) := by
-  refine ⟨?_, ?_, fun h => ?_⟩
-  · have h1 := splitExt_append n ['y', 'm', 'l'] yml_nodot
-    have h2 := resolve_yml n
-    simp only [ymlExt] at h2
-    simp only [findsOwnFile, ymlExt, h1, h2]
-    have : n ++ ['.', 'y', 'm', 'l'] ≠ n ++ yamlExt := fun e => by
-      have := List.append_cancel_left e
-      revert this; decide
-    simp [this]
-  · have h2 := resolve_yaml n
-    simp [findsOwnFile, h2]
-  · simp [findsOwnFile, splitExt_nodot n h]
+/-- **C18 (names: the client finds what the store files).** `dagStore.Find` (fixed `find`, F50) reaches, for EVERY
+    spelling, the file the store reads / writes for it, and every file it probes before that one is a file the
+    store never writes (no name resolves to it — in particular never `x.yml`); so the client's rename looks both
+    names up like the store does (`srcLit = dstLit = false` in `renameSp`). Before F50 a `.yml` spelling was
+    probed literally only and missed its file (`findsOwnFilePre`, the regression witness). -/
+theorem C18_names_literal (s : List Char) :
+    findsOwnFile s = true ∧
+    (∃ pre post, findCandidates s = pre ++ resolve s :: post ∧ ∀ c ∈ pre, ∀ t, resolve t ≠ c) ∧
+    findsOwnFilePre (s ++ ymlExt) = false :=
+  ⟨findsOwnFile_true s, find_first_hit s, findsOwnFilePre_yml s⟩
 
 /-- **C18 (rename with spelled names never overwrites).** Whatever the spellings of the two names: a rename onto
     ANOTHER existing DAG is refused and changes nothing; a rename onto (another spelling of) the DAG itself changes
     nothing; no third DAG's definition or history is ever touched; for spellings the client looks up like the store
-    (`srcLit = dstLit = false`) it is `Defs.rename`, so `C18_rename` applies; and with such a TARGET spelling a
-    refused rename changes nothing at all. -/
+    (`srcLit = dstLit = false` — every spelling after F50, `C18_names_literal`) it is `Defs.rename`, so `C18_rename`
+    applies; and with such a TARGET spelling a refused rename changes nothing at all. -/
 theorem C18_rename_spelled (w : World) (a b : Nat) (sl dl : Bool) :
     (a ≠ b → exists? w b = true → renameSp w a b sl dl = (w, .err)) ∧
     (a = b → (renameSp w a b sl dl).1 = w) ∧
@@ -269,15 +264,17 @@ theorem C18_rename_spelled (w : World) (a b : Nat) (sl dl : Bool) :
           · simp [hab, hb]
           · simp [hab, hb] at herr
 
-/-- the full-strength reading for spelled names: a rename that reports failure has changed nothing -/
-def C18_rename_refusal_full : Prop :=
-  ∀ (w : World) (a b : Nat) (sl dl : Bool), (renameSp w a b sl dl).2 = .err → (renameSp w a b sl dl).1 = w
+/-- **C18 (a rename that reports failure has changed nothing).** The full-strength reading, for the client's rename
+    as the code is (every spelling is looked up like the store does, `C18_names_literal`): an error answer means the
+    world — every definition, every history — is exactly what it was. -/
+theorem C18_rename_refusal_full (w : World) (a b : Nat) :
+    (renameSp w a b false false).2 = .err → (renameSp w a b false false).1 = w :=
+  (C18_rename_spelled w a b false false).2.2.2.2 rfl
 
-/-- **refuted by the code as it is** (finding `Frename-yml-target`, open): DAG 0 exists, name 1 is free and is typed
-    with the `.yml` extension — the definition moves although the answer is an error (and the history stays behind:
-    `renameSp` leaves `hist` alone in that branch). The strongest true statement is the last clause of
-    `C18_rename_spelled` (every target spelling but `.yml`); with the pending fix `dstLit` is always `false`. -/
-theorem C18_rename_refusal_full_refuted : ¬ C18_rename_refusal_full := by
+/-- regression witness (F50, fixed by 8b26466): with the PRE-fix lookup of a target typed `.yml` (`dstLit = true`) the
+    statement fails — DAG 0 exists, name 1 is free: the definition moves although the answer is an error (and the
+    history stays behind: `renameSp` leaves `hist` alone in that branch). -/
+example : ¬ ∀ (w : World) (a b : Nat) (sl dl : Bool), (renameSp w a b sl dl).2 = .err → (renameSp w a b sl dl).1 = w := by
   intro h
   have := h { defs := [(0, 5)] } 0 1 false true (by decide)
   revert this; decide
@@ -293,4 +290,4 @@ end BdModel.P18
 #print axioms BdModel.P18.C18_names_key
 #print axioms BdModel.P18.C18_names_literal
 #print axioms BdModel.P18.C18_rename_spelled
-#print axioms BdModel.P18.C18_rename_refusal_full_refuted
+#print axioms BdModel.P18.C18_rename_refusal_full
